@@ -1168,6 +1168,133 @@ def python_tier(chk: Check) -> None:  # noqa: C901
     definition_checks(chk)
 
 
+def native_join_refs(aliases: Sequence[str], carries: Sequence[bool]) -> Tuple[List[str], List[str]]:
+    """The real SQLTranspiler._build_join_viral_cols on a join whose operands have these SQL aliases: (references handed to
+    vp_reduce_refs, references of the carrying operands in written order)."""
+    core.boot(full=True)
+    import importlib
+    T = importlib.import_module("vtlengine.duckdb_transpiler.Transpiler")
+    M = importlib.import_module("vtlengine.Model")
+    VP = importlib.import_module("vtlengine.ViralPropagation")
+    DT = importlib.import_module("vtlengine.DataTypes")
+    reg = VP.ViralPropagationRegistry()
+    reg.register(VP.ViralPropagationRule("vp", "variable", "VAt_1", [], "avg", None))
+    infos = []
+    for i, (a, c) in enumerate(zip(aliases, carries)):
+        comps = {"Id_1": M.Component("Id_1", DT.Integer, M.Role.IDENTIFIER, False)}
+        if c:
+            comps["VAt_1"] = M.Component("VAt_1", DT.Integer, M.Role.VIRAL_ATTRIBUTE, True)
+        infos.append({"ds": M.Dataset(name=f"D{i}", components=comps, data=None), "alias": a, "sql_alias": a,
+                      "id_names": {"Id_1"}, "node": None, "table_src": a})
+    seen: List[List[str]] = []
+    orig = T.vp_reduce_refs
+    T.vp_reduce_refs = lambda rule, refs: (seen.append(list(refs)), orig(rule, refs))[1]      # observe, then the real function
+    try:
+        T.SQLTranspiler._build_join_viral_cols(infos, reg, {"VAt_1"})
+    finally:
+        T.vp_reduce_refs = orig
+    return (seen[0] if seen else []), [f'{a}."VAt_1"' for a, c in zip(aliases, carries) if c]
+
+
+def join_refs_order(chk: Check) -> None:
+    """The operands of an n-ary join reach vp_reduce_refs in the order written in the join (that order is what the engine's
+    propagation model fixes when the rule's pair function is not associative)."""
+    from vc.pycheck import discharge
+    from vc.pyvc import Engine, ObjV, PathResult
+    trel, rel = "duckdb_transpiler/Transpiler/__init__.py", "ViralPropagation/__init__.py"
+    f = f"src/vtlengine/{trel}:SQLTranspiler._build_join_viral_cols"
+    try:
+        eng = Engine()
+        fn = eng.func(trel, "SQLTranspiler._build_join_viral_cols")
+        members = eng.enum_members(eng.lookup_global("Model/__init__.py", "Role"))
+        CompC, DatasetC = eng.lookup_global("Model/__init__.py", "Component"), eng.lookup_global("Model/__init__.py", "Dataset")
+        RegC, RuleC = eng.lookup_global(rel, "ViralPropagationRegistry"), eng.lookup_global(rel, "ViralPropagationRule")
+        f_register = eng.func(rel, "ViralPropagationRegistry.register")
+        _ok, f_init = eng.class_attr(RegC, "__init__")
+        assert members and "VIRAL_ATTRIBUTE" in members
+    except Exception as e:  # noqa: BLE001
+        ob = chk.ob(f"{f}::present", f, "SQLTranspiler._build_join_viral_cols exists")
+        ob.status, ob.detail = UNDECIDED, f"{type(e).__name__}: {e}"
+        return
+    chk.under_contract(f)
+
+    def reduce_contract(e: Any, rule: Any, refs: Any) -> Any:
+        e.effects.append(("vp_reduce_refs", list(refs)))
+        return "<REDUCED>"
+    eng.contracts[("ViralPropagation/sql.py", "vp_reduce_refs")] = reduce_contract
+    reg = ObjV(RegC, {})
+    rv = ObjV(RuleC, {"name": "vp", "signature_type": "variable", "target": "VAt_1", "enumerated_clauses": [],
+                      "aggregate_function": "avg", "default_value": None})
+
+    def setup(e: Any) -> None:
+        reg.attrs.clear()
+        e.call(f_init, [reg], {})
+        e.call(f_register, [reg, rv], {})
+
+    def native_counterexample(n: int, carries: Sequence[bool]) -> Optional[Tuple[List[str], List[str], List[str]]]:
+        for perm in itertools.permutations(["a", "b", "c", "d"][:n]):
+            for names in (list(perm), [f"DS_{'1 10 2 3'.split()[ 'abcd'.index(p)]}" for p in perm]):
+                got, want = native_join_refs(names, carries)
+                if got != want:
+                    return names, got, want
+        return None
+
+    for n in (2, 3, 4):
+        aliases = [eng.sym_str(f"join{n}.alias{i}") for i in range(n)]
+        for carries in itertools.product((True, False), repeat=n):
+            if sum(carries) < 2:
+                continue
+            infos = []
+            for i in range(n):
+                comps = {"Id_1": ObjV(CompC, {"name": "Id_1", "role": members["IDENTIFIER"], "data_type": None, "nullable": False})}
+                if carries[i]:
+                    comps["VAt_1"] = ObjV(CompC, {"name": "VAt_1", "role": members["VIRAL_ATTRIBUTE"], "data_type": None,
+                                                  "nullable": True})
+                infos.append({"ds": ObjV(DatasetC, {"name": f"D{i}", "components": comps, "data": None}),
+                              "sql_alias": aliases[i], "alias": aliases[i]})
+            want = [smt.Concat(aliases[i], '."VAt_1"') for i in range(n) if carries[i]]
+            tag = f"{n}-operands::" + "".join("v" if c else "-" for c in carries)
+            try:
+                paths = eng.explore(fn, [infos, reg, {"VAt_1"}], setup=setup)
+            except Exception as e:  # noqa: BLE001
+                ob = chk.ob(f"{f}::refs-in-written-order::{tag}", f, "references reach vp_reduce_refs in written operand order")
+                ob.status, ob.detail = UNDECIDED, f"{type(e).__name__}: {e}"
+                paths = None
+
+            def post(p: PathResult, want: List[Any] = want) -> Any:
+                calls = [r for k, r in p.effects if k == "vp_reduce_refs"]
+                if p.kind != "return" or len(calls) != 1 or len(calls[0]) != len(want) or p.value != ['<REDUCED> AS "VAt_1"']:
+                    return False
+                return And(*[Eq(g, w) for g, w in zip(calls[0], want)])
+
+            def rp(model: Dict[str, str], p: PathResult, n: int = n, carries: Sequence[bool] = carries) -> Any:
+                names = [core.smt_str(model[f"join{n}.alias{i}"]) for i in range(n)]
+                got, exp = native_join_refs(names, carries)
+                return got != exp, f"real _build_join_viral_cols, operands written as {names} (carrying VAt_1: " \
+                                   f"{[a for a, c in zip(names, carries) if c]}): vp_reduce_refs receives {got}, written order is {exp}", \
+                    {"aliases_in_written_order": names, "refs_passed": got, "refs_in_written_order": exp}
+            if paths is not None:
+                ob = discharge(chk, eng, f, f"refs-in-written-order::{tag}",
+                               f"[join of {n} operands, VAt_1 carried by {tag.split('::')[1]}] for ALL aliases: exactly one call of "
+                               "vp_reduce_refs, with the references <alias>.\"VAt_1\" of the carrying operands in the order written in the "
+                               "join, and its result is the merged column", paths, [], post,
+                               [f"join{n}.alias{i}" for i in range(n)], rp, lambda m, p: "_build_join_viral_cols::operand-order",
+                               include_site_obligations=False)
+            if ob.status == UNDECIDED:
+                # the symbolic executor could not follow the method (e.g. it now sorts / compares the aliases): a concrete
+                # counterexample among all relative orders of written vs alphabetical alias order still decides a refutation
+                ce = native_counterexample(n, carries)
+                if ce is not None:
+                    names, got, exp = ce
+                    ob.detail = f"symbolic execution: {ob.detail[:160]} | decided by the exhaustive native enumeration of alias orders"
+                    ob.status, ob.backend = REFUTED, "native-exhaustive-alias-orders"
+                    ob.witness = {"aliases_in_written_order": names, "refs_passed": got, "refs_in_written_order": exp}
+                    ob.replayed = True
+                    ob.replay_detail = f"real _build_join_viral_cols, operands written as {names}: vp_reduce_refs receives {got}, " \
+                                       f"written order is {exp}"
+                    ob.finding_key = "_build_join_viral_cols::operand-order"
+
+
 def native_semantic(comp_name: str, role: str, rule_target: Optional[str]) -> str:
     """Real semantic_analysis (API function minus the parser) of `DS_r := DS_1`."""
     from vc import pipeline as P
@@ -1252,6 +1379,8 @@ class Unspecified(Exception):
     """The propagation model (as far as I can take it from the property text) does not define this case."""
 
 
+WRITTEN_FOLD = "VAt_1 (left fold in written operand order)"
+FAIL_PRIORITY = {"not-written-order-fold": 0, "error": 1, "viral-column-missing": 2, "structure": 3, "value": 4, "order": 5}
 UNSPEC = "<unspecified>"
 ORDER_DEP = "<depends on the order of the values>"
 
@@ -1266,6 +1395,8 @@ B_RULES: Dict[str, Tuple[str, List[Tuple[List[Any], Any]], Any, Optional[str]]] 
     "enumerated-integer-constants": ("Integer", [([1, 5], 9), ([1], 1), ([5], 5)], 0, None),
 }
 INT_KIND = "enumerated-integer-constants"
+NONALPHA = "inner join of three datasets whose written operand order is not the alphabetical order of the aliases"
+ORDER_SENSITIVE_KINDS = ("enumerated-with-binary-clause", "aggregate-avg")     # pair function not associative
 
 
 def ref_pair(rule: Any, a: Any, b: Any) -> Any:
@@ -1418,6 +1549,12 @@ def ref_eval(t: Any, env: Dict[str, RefDS], rule: Any) -> RefDS:  # noqa: C901
                 vals = [r["VAt_1"]] + [o["VAt_1"] for o in others]   # type: ignore[index]
                 n = {i: r[i] for i in ds[0].ids}
                 n["VAt_1"] = ref_pair(rule, vals[0], vals[1]) if len(vals) == 2 else ref_group(rule, vals)
+                # what the engine's model fixes where the rule is not a function of the multiset: the left fold of the pair
+                # function over the operands IN THE ORDER WRITTEN in the join (vp_reduce_refs: "ordered list of column refs")
+                acc = vals[0]
+                for x in vals[1:]:
+                    acc = ref_pair(rule, acc, x)
+                n[WRITTEN_FOLD] = acc
                 rows.append(n)
         return RefDS(list(ds[0].ids), rows)
     raise Unspecified(k)
@@ -1441,7 +1578,40 @@ def b_tables(kind: str, with_nulls: bool) -> Dict[str, Tuple[List[Tuple[str, str
     return {"DS_1": (ids, [("Me_1", "Number")], rows(k1, "Me_1", 0, (2, 3))),
             "DS_2": (ids, [("Me_1", "Number")], rows(k2, "Me_1", 1, (1,))),
             "DS_3": (ids, [("Me_2", "Number")], rows(k2, "Me_2", 3, (0,))),
-            "DS_4": (ids, [("Me_3", "Number")], rows(k1, "Me_3", 4, (4,)))}
+            "DS_4": (ids, [("Me_3", "Number")], rows(k1, "Me_3", 4, (4,))),
+            # DS_10 sorts between DS_1 and DS_2 as a name: joins whose written operand order is not the alphabetical one
+            "DS_10": (ids, [("Me_4", "Number")], rows(k1, "Me_4", 5, (1,)))}
+
+
+def join_operand_orders(ir: Any, env: Dict[str, "RefDS"], rule: Any) -> Optional[Tuple[int, int]]:
+    """For a join IR of >= 3 operands: (#joined keys, #keys whose left fold in ALPHABETICAL alias order differs from the fold in
+    written order) - the vacuity guard of the classes that pin the written order."""
+    if ir[0] != "join" or len(ir[2]) < 3:
+        return None
+    ds = [ref_eval(x, env, rule) for x, _a in ir[2]]
+    names = [a or x[1] for x, a in ir[2]]
+    alpha = sorted(range(len(names)), key=lambda i: names[i])
+    n = diff = 0
+    for r in ds[0].rows:
+        key = ds[0].key(r)
+        vals = [r["VAt_1"]]
+        for d in ds[1:]:
+            o = next((o for o in d.rows if tuple(o[i] for i in ds[0].ids) == key), None)
+            if o is None:
+                break
+            vals.append(o["VAt_1"])
+        if len(vals) != len(ds):
+            continue
+        n += 1
+
+        def fold(order: Sequence[int]) -> Any:
+            acc = vals[order[0]]
+            for i in order[1:]:
+                acc = ref_pair(rule, acc, vals[i])
+            return acc
+        if not b_same(*(float(v) if isinstance(v, Fraction) else v for v in (fold(range(len(vals))), fold(alpha)))):
+            diff += 1
+    return n, diff
 
 
 def b_programs() -> List[Tuple[str, str, Any]]:
@@ -1460,6 +1630,9 @@ def b_programs() -> List[Tuple[str, str, Any]]:
         ("aggregation (group by)", "count(DS_2 group by Id_1)", ("agg", "count", d2, "group by", ["Id_1"], None)),
         ("inner join of two datasets", "inner_join(DS_1, DS_3)", ("join", "inner_join", [(d1, None), (d3, None)], None, [])),
         ("inner join of three datasets", "inner_join(DS_1, DS_3, DS_4)", ("join", "inner_join", [(d1, None), (d3, None), (d4, None)], None, [])),
+        (NONALPHA, "inner_join(DS_3, DS_10, DS_1)", ("join", "inner_join", [(d3, None), (("ds", "DS_10"), None), (d1, None)], None, [])),
+        (NONALPHA, "inner_join(DS_1, DS_3, DS_10)", ("join", "inner_join", [(d1, None), (d3, None), (("ds", "DS_10"), None)], None, [])),
+        (NONALPHA, "inner_join(DS_4 as z, DS_1 as a, DS_3 as m)", ("join", "inner_join", [(d4, "z"), (d1, "a"), (d3, "m")], None, [])),
         ("clause filter", "DS_1[filter Me_1 > 12]", ("clause", "filter", d1, ("bin", ">", ("comp", "Me_1"), ("const", 12)))),
         ("clause calc", "DS_1[calc Me_2 := Me_1 + 1]", ("clause", "calc", d1, [("Me_2", ("bin", "+", ("comp", "Me_1"), ("const", 1)))])),
         ("clause keep", "DS_1[keep Me_1]", ("clause", "keep", d1, ["Me_1"])),
@@ -1600,6 +1773,9 @@ class BTier:
             except Unspecified as e:
                 unspecified[str(e)] = unspecified.get(str(e), 0) + 1
                 continue
+            jo = join_operand_orders(ir, env, rule)
+            if jo is not None:
+                c["discriminating_keys"] = c.get("discriminating_keys", 0) + jo[1]
             if res[0] == "error":
                 _k, code, msg, module = res
                 if module.startswith("vtlengine") and str(code).startswith(("1-", "0-")) and code != "1-3-3-6":
@@ -1612,28 +1788,50 @@ class BTier:
             c["n"] += 1
             problem = None
             want = {tuple(r[i] for i in ids_r): r["VAt_1"] for r in ref.rows} if sorted(ids_r) == sorted(ref.ids) else None
+            folds = {tuple(r[i] for i in ids_r): r[WRITTEN_FOLD] for r in ref.rows if WRITTEN_FOLD in r} if want is not None else {}
             what = "value"
             if got is None or roles.get("VAt_1") != "Viral Attribute":
                 problem = f"the returned data has no viral attribute column VAt_1 (declared components {roles})"
                 what = "viral-column-missing"
             elif want is None:
-                problem = f"identifiers {ids_r} vs model {ref.ids}"
+                problem, what = f"identifiers {ids_r} vs model {ref.ids}", "structure"
             elif sorted(k for k, _v in got) != sorted(want):
-                problem = f"datapoint keys {sorted(k for k, _v in got)} vs model {sorted(want)}"
+                problem, what = f"datapoint keys {sorted(k for k, _v in got)} vs model {sorted(want)}", "structure"
             else:
+                def show(x: Any) -> str:
+                    return str(x) if isinstance(x, Fraction) else repr(x)
+
+                def num(x: Any) -> Any:
+                    return float(x) if isinstance(x, Fraction) else x
                 for key, v in got:
                     w = want[key]
                     if w == UNSPEC:
                         unspecified["single-datapoint group under an enumerated rule"] = \
                             unspecified.get("single-datapoint group under an enumerated rule", 0) + 1
                         continue
+                    if key in folds:
+                        # join: where the rule is not a function of the multiset the model is the written-order left fold.  A
+                        # value that is neither the multiset value nor that fold is never attributed to the known D1 / D3 keys
+                        fold = folds[key]
+                        if w != ORDER_DEP and b_same(v, num(w)):
+                            continue
+                        if b_same(v, num(fold)):
+                            if w != ORDER_DEP and what == "value" and problem is None:
+                                problem = f"datapoint {dict(zip(ids_r, key))}: VAt_1 = {v!r} (the pairwise fold in written operand " \
+                                          f"order), the rule over all joined values gives {show(w)}"
+                            continue
+                        problem = f"datapoint {dict(zip(ids_r, key))}: VAt_1 = {v!r} is not the left fold of the rule over the operands " \
+                                  f"in the order written in the join ({show(fold)})" + \
+                                  ("" if w == ORDER_DEP else f" nor the rule over all joined values ({show(w)})")
+                        what = "not-written-order-fold"
+                        break
                     if w == ORDER_DEP:
                         continue                 # decided below: the engine's value must at least not depend on the row order
-                    if not b_same(v, float(w) if isinstance(w, Fraction) else w):
-                        problem = f"datapoint {dict(zip(ids_r, key))}: VAt_1 = {v!r}, the rule gives {str(w) if isinstance(w, Fraction) else w!r}"
+                    if not b_same(v, num(w)):
+                        problem = f"datapoint {dict(zip(ids_r, key))}: VAt_1 = {v!r}, the rule gives {show(w)}"
                         break
             c["by_program"].setdefault(text, []).append((order, dict(got) if got else {}, data))
-            if problem and c["fail"] is None:
+            if problem and (c["fail"] is None or FAIL_PRIORITY[what] < FAIL_PRIORITY[c["fail"][3]]):
                 c["fail"] = (text, problem, data, what)
         chk.extra["bounded_programs"] = {"runs": len(self.jobs), "row_orders_per_program": len(self.orders),
                                          "programs": len(b_programs()), "unspecified_cases_left_out": unspecified}
@@ -1668,8 +1866,13 @@ class BTier:
                     f"wiring::{cls}::{kind}::{'nulls' if wn else 'no-nulls'}::{what}"
             elif c["n"] == 0:
                 ob.status, ob.detail = UNDECIDED, "no program of this class was accepted and comparable"
+            elif cls == NONALPHA and kind in ORDER_SENSITIVE_KINDS and not c.get("discriminating_keys"):
+                ob.status, ob.detail = UNDECIDED, "vacuous: on this data the fold in alphabetical alias order equals the fold in " \
+                                                  "written order for every joined datapoint"
             else:
-                ob.status, ob.detail = BOUNDED_OK, f"{c['n']} runs"
+                ob.status, ob.detail = BOUNDED_OK, f"{c['n']} runs" + (
+                    f"; {c['discriminating_keys']} joined datapoints distinguish the written operand order from the alphabetical "
+                    "alias order" if c.get("discriminating_keys") else "")
 
 
 # ======================================================================================================================
@@ -1695,6 +1898,7 @@ def main() -> None:
         phase("sql-rule-algebra", lambda: sql_tier(chk))
     if only in ("", "py"):
         phase("registry-interpreter", lambda: python_tier(chk))
+        phase("join-operand-order", lambda: join_refs_order(chk))
     if bt is not None:
         phase("bounded-tier-wait", bt.collect)
     chk.extra["phase_seconds"] = phases
